@@ -8,7 +8,7 @@ from lib.vlib import *
 META = {
     "property_id": "C08",
     "technique": "Coq proof (termination, coverage, determinism and sensitivity of the environment traversal) + reified-graph correspondence + edit-menu oracle on real loads "
-                 "+ collection-size/position sweep + schedule families (controlled interleavings, free goroutines, the runner; race detector)",
+                 "+ collection-size/position sweep + value-space families (every representation boundary of every scalar kind, confusable kinds and shapes, host kinds) + schedule families (controlled interleavings, free goroutines, the runner; race detector)",
     "level_text": "Theorems (Coq, all graphs): fingerprint_terminates (the traversal done by recursionPickler/envPickler under the "
                   "encoder's memo terminates on every function graph, recursion and mutual recursion included); "
                   "fingerprint_covers_reachable (the code of every reachable function is in the fingerprint); "
@@ -29,6 +29,13 @@ META = {
                   "Collection sweep (one process, one Load per edit): for every size next to a multiple of the encoder's batch of 1000 and the small / 255-257 / random sizes, "
                   "a list, tuple, dict (by value, by key), set, nested list, default list, captured list, string, bytes and range of that size, each referenced by its own target; "
                   "replacing the element at the head, the tail, either side of each batch boundary or a random position, or appending one, changes the fingerprint of every target that references it. "
+                  "Value space (one process): a pool of values -- integers +-(2^k-1), +-2^k, +-(2^k+1) for every k at which the codec, the interpreter or a machine word changes representation (7..256; thorough ..20000) "
+                  "and seeded random integers of 1-260 bits with the relatives a lossy representation would identify with them (successor, negation, same low 64/32 bits, decimal prefix and extension, top bit cleared); floats at the "
+                  "zero/denormal/overflow/2^53 borders one ulp apart, infinities, NaN, next to the integers of the same numeric value; strings and bytes (empty, NUL, newline, quotes, opcode look-alikes, 1-4 byte UTF-8, prefixes and one-byte "
+                  "extensions, lengths 254-257, seeded random with bit flip / truncation / extension); None/False/0/0.0/''/()/[]/{}/set() and other confusable kinds and shapes; builtins, bound methods, modules, labels, paths, ranges -- "
+                  "each referenced by functions of identical code through 8 routes (captured, default, element of a captured list / tuple / set, dict value, dict key, nested): any two targets of a route that reference different values "
+                  "(decided on the live objects) have different fingerprints, equal text re-loaded gives equal ones, functionEnv succeeds; and one load per value of a selection of a project referencing it as a global, a literal, "
+                  "a literal default, a global of a load()ed file, in a global list, as a dict key: per route the fingerprints of all these edits of the project text are pairwise different. "
                   "Schedules: the fingerprint of a target is the one computed alone when another target is fingerprinted inside every single write of its pickling, when all "
                   "targets are fingerprinted at once by one goroutine each, and when the real runner builds them as independent dependencies (records = stamps computed alone, a fresh load "
                   "finds them up to date); the race detector reports no memory shared between two targets' fingerprint computations.",
@@ -41,6 +48,8 @@ META = {
                   "determinism and sensitivity for value kinds are decided by the harness on a fixed program menu, not by a theorem.",
     "design_ref": "DESIGN.md §6 C08",
 }
+
+FAMILIES = ("collections-", "concurrent/", "values/")
 
 HDR = "From Dawn Require Import Fingerprint.Model Fingerprint.Run.\nOpen Scope N_scope.\n"
 
@@ -89,7 +98,7 @@ def run(ctx):
         return
     out = os.path.join(ctx.tmp, "c08.tsv")
     files = {n: os.path.join(HARNESS, "overlay/root", n) for n in
-             ("zz_verif_c08_test.go", "zz_verif_c08_sweep_test.go", "zz_verif_c08_conc_test.go")}
+             ("zz_verif_c08_test.go", "zz_verif_c08_sweep_test.go", "zz_verif_c08_values_test.go", "zz_verif_c08_conc_test.go")}
     env = {"VERIF_OUT": out, "VERIF_SEED": str(ctx.seed), "VERIF_NRAND": "12" if ctx.quick() else "150",
            "VERIF_C08_THOROUGH": "0" if ctx.quick() else "1"}
     # the schedule families once more under the race detector, in parallel with the main run (a second build of the package)
@@ -111,6 +120,7 @@ def run(ctx):
         return
     cases, graphs, oracles = [], [], []
     texts = {}
+    values_info = {"routes": {}}
     for line in open(out):
         f = line.rstrip("\n").split("\t")
         if f[0] == "ORACLE":
@@ -119,6 +129,12 @@ def run(ctx):
             cases.append(f[1:])
         elif f[0] == "graph":
             graphs.append(f[1:])
+        elif f[0] == "valuesdist":
+            values_info["pool_classes"] = dict((kv.split("=")[0], int(kv.split("=")[1])) for kv in f[1].split())
+        elif f[0] == "valuesroute":
+            values_info["routes"][f[1]] = {"targets": int(f[2]), "distinct_values": int(f[3]), "distinct_fingerprints": int(f[4])}
+        elif f[0] == "valuesdone":
+            values_info["pool"], values_info["edit_loads"] = int(f[1]), int(f[2])
         elif f[0] == "text":
             texts[f[1]] = base64.b64decode(f[2]).decode("utf-8", "replace")
     ctx.coverage["evaluations"] = len(cases) + len(graphs)
@@ -132,26 +148,43 @@ def run(ctx):
                             "a program with one target per way of referencing an n-element collection (list, tuple, dict by value, dict by key, set, list nested in a dict, list as default, "
                             "list captured by a closure, string, bytes, range), literal or built by comprehensions; edits: replace element p for p at the head, the tail and both sides of every batch boundary "
                             "plus seeded random p, and append one element; every referencing target must change. "
+                            "Value space: a pool of %d values (%s), one target per (route, value) for 8 routes in one load (all functions of a route the same code), fingerprints pairwise different per route; "
+                            "%d loads of a 6-route project (global, literal, default, load()ed global, in a global list, dict key), one per value of the selection (class boundaries, random relatives, kinds, shapes, host kinds), "
+                            "pairwise different per route. "
                             "Schedules: k independent targets each referencing a value of every codec kind (all values distinct): target B fingerprinted inside EVERY write of target A's pickling, "
                             "one goroutine per target fingerprinting at once, the real runner building a target that depends on all k then a fresh load; each must give the fingerprints computed alone; "
-                            "the same once more under the race detector" % len({c[0] for c in cases if not c[0].startswith(("collections-", "concurrent/"))}))
-    ctx.coverage["correspondence"]["distribution"] = {"programs": len({c[0] for c in cases if not c[0].startswith(("collections-", "concurrent/"))}),
-                                                      "edits": len([c for c in cases if not c[0].startswith(("collections-", "concurrent/"))]), "graphs": len(graphs),
+                            "the same once more under the race detector" % (len({c[0] for c in cases if not c[0].startswith(FAMILIES)}), values_info.get("pool", 0),
+                                                                               ", ".join("%s %d" % kv for kv in sorted(values_info.get("pool_classes", {}).items())), values_info.get("edit_loads", 0)))
+    ctx.coverage["correspondence"]["distribution"] = {"programs": len({c[0] for c in cases if not c[0].startswith(FAMILIES)}),
+                                                      "edits": len([c for c in cases if not c[0].startswith(FAMILIES)]), "graphs": len(graphs),
                                                       "collection_sizes": len({c[0].split("/")[0] for c in cases if c[0].startswith("collections-")}),
                                                       "collection_cases": len([c for c in cases if c[0].startswith("collections-")]),
-                                                      "schedule_cases": len([c for c in cases if c[0].startswith("concurrent/")])}
+                                                      "schedule_cases": len([c for c in cases if c[0].startswith("concurrent/")]),
+                                                      "value_cases": len([c for c in cases if c[0].startswith("values/")]), "values": values_info}
     ctx.add_samples([c[:4] for c in cases[:3]] + [g[:3] for g in graphs[1:3]])
     # oracle failures of the two families are many lines of one defect: one violation per (family, oracle), inputs listed
     grouped, single = {}, []
     for o_ in oracles:
-        fam = "collections" if o_[1].startswith("collections-") else "concurrent" if o_[1].startswith("concurrent/") else None
+        fam = "collections" if o_[1].startswith("collections-") else "concurrent" if o_[1].startswith("concurrent/") else "values" if o_[1].startswith("values/") else None
         if fam:
             grouped.setdefault((fam, o_[0]), []).append(o_)
         else:
             single.append(o_)
     for (fam, orc), lst in sorted(grouped.items()):
+        if fam == "values":
+            # list one failing input of every route before the others
+            firsts, seen_routes = [], set()
+            for x in lst:
+                route = "/".join(x[1].split("/")[1:3]) if x[1].startswith("values/edits/") else x[1].split("/")[1]
+                if route not in seen_routes:
+                    seen_routes.add(route)
+                    firsts.append(x)
+            lst = firsts + [x for x in lst if x not in firsts]
         how = ("harness/overlay/root/zz_verif_c08_sweep_test.go: program c08SweepText(n, ...) for the size n in the name, target and edit as named"
                if fam == "collections" else
+               "harness/overlay/root/zz_verif_c08_values_test.go: pool c08ValuePool(seed, thorough); values/<route>/<a> -> <b>: the targets function=mk(<a>) and function=mk(<b>) of c08ValuePoolText (route = how the "
+               "value is wrapped); values/edits/<target>/<a> -> <b>: the projects c08ValueEditText(<a>) and c08ValueEditText(<b>), target as named"
+               if fam == "values" else
                "harness/overlay/root/zz_verif_c08_conc_test.go: project c08ConcText(k, seed), schedule as named")
         ctx.violation("implementation violates C08 (%s, %d inputs of the %s family): %s: %s" % (orc, len(lst), fam, lst[0][1], lst[0][2] if len(lst[0]) > 2 else ""),
                       {"oracle": orc, "family": fam, "failing_inputs": [x[1] for x in lst[:12]], "detail": [x[2:] for x in lst[:4]],
